@@ -272,6 +272,32 @@ def fam_refuse(mi, rnd, tier):
                 ops.append(call_op(dyn, ev, pl))
         ops.append(('drop',))
         out.append(ops)
+    # directed: data owned by a superstate, written through the dynamic setter, must survive a refused move between two
+    # of its leaves (and the refusal must leave every slot as it was)
+    if mi.dynamic:
+        done = 0
+        for (x, _ty) in mi.specs:
+            if x not in mi.supers:
+                continue
+            inside = set(mi.under(x))
+            for (leaf, ev), (tgt, _hooks) in sorted(mi.edges.items()):
+                if leaf not in inside or tgt not in inside or done >= (4 if tier == 'quick' else 16):
+                    continue
+                calls = mi.calls(leaf, ev)
+                blockable = [i for i, c in enumerate(calls) if c[0] in ('ab', 'g', 'u')]
+                if not blockable:
+                    continue
+                plc = PL()
+                st, d2 = start_ops(mi, rnd, True)
+                po = path_ops(mi, leaf, d2, plc)
+                if po is None:
+                    continue
+                i = blockable[-1]
+                k = calls[i][0]
+                blk = ('f', 0) if k == 'g' else (('t', 0) if k == 'u' else (('Ag', 'veto_g'), 0))
+                out.append(st + po + [('set', x, 41), ('mut', x, 1), call_op(d2, ev, plc.next(mi, ev), [D] * i + [blk]),
+                                      ('mut', x, 1), call_op(d2, ev, plc.next(mi, ev)), ('mut', x, 1), ('drop',)])
+                done += 1
     return out
 
 
@@ -366,15 +392,19 @@ def fam_pair(mi, rnd, tier):
         return out
     pairs = [(l, e) for l in mi.leaves for e in mi.events]
     rnd.shuffle(pairs)
-    for (leaf, ev) in pairs[: (8 if tier == 'quick' else 30)]:
-        for _ in range(2 if tier == 'quick' else 4):
+    fixed = mi.idx < len(fixtures())     # the fixtures are compared on every (leaf, event) pair, the others on a sample
+    own = dict(mi.specs)
+    for (leaf, ev) in (pairs if fixed else pairs[: (8 if tier == 'quick' else 30)]):
+        for rep_i in range(1 if fixed and tier == 'quick' else (2 if tier == 'quick' else 4)):
             ctx = rnd.randint(1, 9)
             plc = PL()
             po = path_ops(mi, leaf, True, plc)
             if po is None:
                 continue
             pre = [('dnew', ctx)] + po
-            if mi.specs and rnd.random() < 0.5:
+            if leaf in own and (fixed or rnd.random() < 0.5):
+                pre.append(('mut', leaf, rnd.randint(1, 99)))       # the current leaf's own data differs from its default
+            elif mi.specs and rnd.random() < 0.5:
                 pre.append(('mut', rnd.choice(mi.specs)[0], rnd.randint(1, 99)))
             pl = plc.next(mi, ev)
             if (leaf, ev) in mi.edges:
@@ -763,6 +793,8 @@ def fixtures():
             _ev('go_2_x', _tr(['Outer'], 'Deep', around=['wg1', 'wg2']), payload=pl, guards=['gg2', 'gg1']),
             _ev('enable_2fa', _tr(['Done'], 'Inner')),
             _ev('land', _tr(['Inner', 'Done'], 'Flight'), _tr(['Flight'], 'Inner', after=['al1'])),
+            # a self-loop on a data state without any hook or payload (nothing but the state change itself to observe)
+            _ev('hold', _tr(['Cooldown'], 'Cooldown')),
         ]
         d = [('name', 'M'), ('initial', 'Idle')]
         if concrete:
